@@ -1,4 +1,4 @@
-import PeliteModel.Lemmas.ResMisc
+import PeliteModel.Lemmas.ResIco
 /-!
 C12 — resource tree traversal, lookup and reassembly reflect the stored directory.
 
@@ -354,5 +354,69 @@ theorem C12_write_offsets (r : Resources) (pre : List GroupEntry) (e : GroupEntr
       (bytesAt r.sec e.off 12 ++ le32Bytes ((start + (pre.map (·.bytesInRes)).sum) % 4294967296)) ++
       writeEntries r post ((start + (pre.map (·.bytesInRes)).sum + e.bytesInRes) % 4294967296) :=
   writeEntries_split r pre e post start h
+
+/-- **Reassembly reproduces the file.**  Take any `.ico` (kind 1) or `.cur` (kind 2) file — any number
+of images, any image data — whose sizes fit their fields (`IcoOK`), turn it into a resource section
+the way a resource compiler does (`icoToResources`: `RT_ICON`/`RT_CURSOR` entries `i+1 ↦ image i`, one
+`RT_GROUP_*` entry named 1 holding the GRPICONDIR).  Then `icons()` / `cursors()` yields exactly that
+one group and `write` outputs the original file byte for byte: header, entries with the recomputed
+offsets, image data in entry order. -/
+theorem C12_ico_round_trip (kind : Nat) (imgs : List IcoImage) (hok : IcoOK kind imgs)
+    (henc : Encodable 0 (icoToTree kind imgs)) :
+    ∃ g, (if kind = 1 then icons (icoToResources kind imgs) else cursors (icoToResources kind imgs)) =
+        .ok [.ok (.id 1, g)] ∧
+      g.write (icoToResources kind imgs) = .ok (icoFile kind imgs) := by
+  obtain ⟨g, h1, h2⟩ := ico_round_trip hok henc
+  refine ⟨g, ?_, h2⟩
+  unfold icoGroupType at h1
+  by_cases hk : kind = 1
+  · rw [if_pos hk] at h1 ⊢; exact h1
+  · rw [if_neg hk] at h1 ⊢; exact h1
+
+/-- the same on ANY 4-aligned section that represents that tree with each data entry directly
+followed by its bytes (`Canon`), whatever else the section contains -/
+theorem C12_write_reproduces_ico (r : Resources) (hb : Aligned r) (kind : Nat) (imgs : List IcoImage) (hok : IcoOK kind imgs)
+    (ht : IsTree r (icoToTree kind imgs)) (hc : Canon r 0 (icoToTree kind imgs)) :
+    ∃ g, groups r (icoGroupType kind) = .ok [.ok (.id 1, g)] ∧ g.write r = .ok (icoFile kind imgs) :=
+  write_ico hb hok ht hc
+
+/-! ## 8. The hypotheses are satisfiable on non-trivial instances -/
+
+/-- a tree with named (BMP, non-BMP, empty) and id entries, three levels, an empty directory -/
+def sampleTree : Node :=
+  .dir 2 (.cons (.wide [0x4D, 0x41, 0x49, 0x4E]) (.dir 1 (.cons (.wide [0xD83D, 0xDE00]) (.data [1, 2, 3] 1252) (.cons (.id 7) (.dir 0 .nil) .nil)))
+    (.cons (.wide []) (.data [] 0)
+    (.cons (.id 3) (.dir 0 (.cons (.id 1) (.dir 0 (.cons (.id 1033) (.data [0xAA, 0xBB] 65001) .nil)) .nil))
+    (.cons (.id 24) (.data [60, 97, 47, 62] 0) .nil))))
+
+example : Encodable 0x2000 sampleTree ∧ sampleTree.depth = 3 := by decide
+example : fsck (resourcesOf 0x2000 sampleTree) = .ok () := C12_fsck_complete _ _ (by decide) (by decide)
+/-- observations of a lookup result (the tree type has no decidable equality) -/
+def foundData : FRes Node → Option (List UInt8 × Nat)
+  | .ok (.data c cp) => some (c, cp)
+  | _ => none
+def foundDir : FRes Node → Option (Nat × Nat)
+  | .ok (.dir n es) => some (n, es.length)
+  | _ => none
+def foundErr : FRes Node → Option FindError
+  | .error e => some e
+  | _ => none
+
+example : foundDir (sampleTree.find (asc "/MAIN/#7")) = some (0, 0) := by decide +kernel
+example : foundData (sampleTree.find (asc "/#ICON/#1/#1033")) = some ([0xAA, 0xBB], 65001) := by decide +kernel
+example : foundData (sampleTree.find (asc "/#3//#1/./#1033/")) = some ([0xAA, 0xBB], 65001) := by decide +kernel
+example : foundErr (sampleTree.find (asc "/#03")) = some .notFound := by decide +kernel
+example : foundErr (sampleTree.find (asc "/#3/#1/#1033/x")) = some .unDataEntry := by decide +kernel
+example : foundErr (sampleTree.find (asc "#3")) = some .noRootPath := by decide +kernel
+-- "/MAIN/😀" as UTF-8 finds the entry whose stored name is the surrogate pair D83D DE00
+example : foundData (sampleTree.find [47, 77, 65, 73, 78, 47, 0xF0, 0x9F, 0x98, 0x80]) = some ([1, 2, 3], 1252) := by
+  decide +kernel
+example : foundErr (sampleTree.find [47, 77, 65, 73, 78, 47, 0xF0, 0x9F]) = some .bad8Path := by decide +kernel
+
+/-- a two-image icon file -/
+def sampleIco : List IcoImage := [⟨[16, 16, 0, 0, 1, 0, 32, 0], [1, 2, 3, 4, 5]⟩, ⟨[32, 32, 0, 0, 1, 0, 8, 0], []⟩]
+
+example : IcoOK 1 sampleIco ∧ Encodable 0 (icoToTree 1 sampleIco) :=
+  ⟨⟨Or.inl rfl, by decide, by decide, by decide, by decide⟩, by decide⟩
 
 end Pelite.Resources
